@@ -136,32 +136,34 @@ type c19Case struct {
 
 func c19Eval(c c19Case, seed int64) (fs []verifFinding) {
 	n := c.N
-	probes, problem := c19Run(seed, c.Ver, c.Pattern, []int{n, 2 * n, 4 * n})
+	probes, problem := c19Run(seed, c.Ver, c.Pattern, []int{n, 2 * n, 3 * n, 4 * n})
 	if problem != "" {
 		return []verifFinding{{"C19:run-failed", fmt.Sprintf("pattern %q v%d: %s", c.Pattern, c.Ver, problem)}}
 	}
-	if len(probes) != 3 {
+	if len(probes) != 4 {
 		return nil
 	}
-	grows := func(x1, x2, x4 int) bool {
-		return x4-x2 >= n && x2-x1 >= n/2
+	// growth in every one of the three consecutive intervals of n periods (a bounded buffer that is still filling
+	// up during the first periods levels off; unbounded storage keeps growing)
+	grows := func(x1, x2, x3, x4 int) bool {
+		return x2-x1 >= n/2 && x3-x2 >= n/2 && x4-x3 >= n/2
 	}
 	for side := 0; side < 2; side++ {
 		var keys []string
-		for k := range probes[2].Sizes[side] {
+		for k := range probes[3].Sizes[side] {
 			keys = append(keys, k)
 		}
 		sort.Strings(keys)
 		for _, k := range keys {
-			x1, x2, x4 := probes[0].Sizes[side][k], probes[1].Sizes[side][k], probes[2].Sizes[side][k]
-			if grows(x1, x2, x4) {
-				fs = append(fs, verifFinding{"C19:state-grows:" + k, fmt.Sprintf("pattern %q (v%d): bytes retained under %s of %c after %d / %d / %d repetitions: %d / %d / %d", c.Pattern, c.Ver, k, 'A'+side, n, 2*n, 4*n, x1, x2, x4)})
+			x1, x2, x3, x4 := probes[0].Sizes[side][k], probes[1].Sizes[side][k], probes[2].Sizes[side][k], probes[3].Sizes[side][k]
+			if grows(x1, x2, x3, x4) {
+				fs = append(fs, verifFinding{"C19:state-grows:" + k, fmt.Sprintf("pattern %q (v%d): bytes retained under %s of %c after %d / %d / %d / %d repetitions: %d / %d / %d / %d", c.Pattern, c.Ver, k, 'A'+side, n, 2*n, 3*n, 4*n, x1, x2, x3, x4)})
 			}
 		}
 	}
-	if grows(probes[0].Emitted, probes[1].Emitted, probes[2].Emitted) {
-		fs = append(fs, verifFinding{"C19:output-grows", fmt.Sprintf("pattern %q (v%d): bytes emitted during one period after %d / %d / %d repetitions: %d / %d / %d (longest message %d / %d / %d)", c.Pattern, c.Ver, n, 2*n, 4*n,
-			probes[0].Emitted, probes[1].Emitted, probes[2].Emitted, probes[0].MaxMsg, probes[1].MaxMsg, probes[2].MaxMsg)})
+	if grows(probes[0].Emitted, probes[1].Emitted, probes[2].Emitted, probes[3].Emitted) {
+		fs = append(fs, verifFinding{"C19:output-grows", fmt.Sprintf("pattern %q (v%d): bytes emitted during one period after %d / %d / %d / %d repetitions: %d / %d / %d / %d (longest message %d / %d / %d / %d)", c.Pattern, c.Ver, n, 2*n, 3*n, 4*n,
+			probes[0].Emitted, probes[1].Emitted, probes[2].Emitted, probes[3].Emitted, probes[0].MaxMsg, probes[1].MaxMsg, probes[2].MaxMsg, probes[3].MaxMsg)})
 	}
 	return
 }
@@ -177,7 +179,7 @@ func init() {
 			return c19Eval(c, seed)
 		},
 		Run: func(r *verifReport) {
-			r.Rule = "EVERY word of length ≤ 3 over the step alphabet {A→B text delivered, B→A text delivered, forged data message with current / arbitrary / ever-increasing key ids, garbage message, heartbeat, refresh exchange} (584 periodic traffic patterns) is repeated n, 2n and 4n times from an established session (n = 6 quick, 16 thorough) on the real conversations; the bytes reachable from each conversation are measured per field by a reflective walk (slices to capacity) and the bytes emitted during the last period are recorded. The runs are deterministic, so growth is exact: a violation is a field (or the output of one period) that grows by ≥ n between 2n and 4n and by ≥ n/2 between n and 2n"
+			r.Rule = "EVERY word of length ≤ 3 over the step alphabet {A→B text delivered, B→A text delivered, forged data message with current / arbitrary / ever-increasing key ids, garbage message, heartbeat, refresh exchange} (584 periodic traffic patterns) is repeated n, 2n, 3n and 4n times from an established session (n = 6 quick, 16 thorough) on the real conversations; the bytes reachable from each conversation are measured per field by a reflective walk (slices to capacity) and the bytes emitted during the last period are recorded. The runs are deterministic, so growth is exact: a violation is a field (or the output of one period) that grows by ≥ n/2 in each of the three consecutive intervals of n repetitions (a bounded buffer still filling up levels off; bounds of up to 3n = 18 periods are tolerated)"
 			r.Assumptions = []string{"no incomplete fragment streams and no texts queued before a session exist in these histories (the two kinds of storage the property allows to grow)"}
 			n := 6
 			if r.Tier == "thorough" {
